@@ -490,7 +490,12 @@ func (ps *parser) parseModule() *Module {
 		}
 		ps.parseItem(&m.Items, false)
 	}
-	ps.next()
+	et := ps.next()
+	if ps.isOp(":") && ps.peek(1).kind == tIdent {
+		ps.unsupported(et.line, "SystemVerilog endmodule label")
+		ps.next()
+		ps.next()
+	}
 	ps.resolvePorts(m)
 	return m
 }
@@ -677,16 +682,16 @@ func (ps *parser) parseItem(items *[]Item, inGen bool) {
 		ps.parseDeclNames(di)
 		ps.expectOp(";")
 		*items = append(*items, di)
-	case "reg", "integer", "time", "real", "realtime", "genvar", "event", "logic", "bit", "int":
+	case "reg", "integer", "time", "real", "realtime", "genvar", "event", "logic", "bit", "int", "byte", "shortint", "longint":
 		ps.next()
 		di := &DeclItem{itemBase: itemBase{t.line}, Kind: t.text, IsReg: true}
 		switch t.text {
 		case "integer":
 			di.Signed = true
-		case "logic", "bit", "int":
+		case "logic", "bit", "int", "byte", "shortint", "longint":
 			ps.unsupported(t.line, "SystemVerilog type '"+t.text+"'")
 			di.Kind = "reg"
-			if t.text == "int" {
+			if t.text != "logic" && t.text != "bit" {
 				di.Kind = "integer"
 				di.Signed = true
 			}
